@@ -207,7 +207,7 @@ fn explore(which: &str, seed: u64, max_steps: usize, stick: u64, spur: u64, weak
         while g.status.iter().any(|s| matches!(s, Status::Running | Status::NotStarted)) {
             let (g2, _) = SCHED.cv.wait_timeout(g, std::time::Duration::from_millis(500)).unwrap();
             g = g2;
-            if tw.elapsed().as_secs() >= 10 {
+            if tw.elapsed().as_secs() >= 20 {
                 // a thread runs without ever reaching a yield point (or died): the harness cannot continue
                 let tail: Vec<String> = g.trace.iter().rev().take(400).rev().cloned().collect();
                 println!("stuck steps={} viol=thread-never-yields:{:?} :: {}", steps, g.status, tail.join(" ; "));
@@ -284,7 +284,7 @@ fn explore(which: &str, seed: u64, max_steps: usize, stick: u64, spur: u64, weak
         if handles.iter().all(|h| h.is_finished()) {
             break;
         }
-        if t0.elapsed().as_secs() >= 10 {
+        if t0.elapsed().as_secs() >= 20 {
             stuck = true;
             break;
         }
